@@ -270,6 +270,66 @@ fn operand_position_programs() -> Vec<(String, Vec<u8>)> {
     out
 }
 
+/// Freshness of the opaque stand-ins: programs in which, by construction, every stack position of a final state (and
+/// the stack tops of two paths) holds a different quantity, so two opaque `Value` nodes there must never be one value.
+fn freshness_programs() -> Vec<(String, Vec<u8>, bool)> {
+    let mut v = Vec::new();
+    for (name, opc) in [("MUL", 0x02u8), ("ADD", 0x01), ("EXP", 0x0a), ("XOR", 0x18)] {
+        // CALLER; JUMPDEST; DUP1 DUP1 op; PUSH1 1; JUMP: the stack grows by one ever larger power per iteration
+        v.push((format!("accumulating loop over {name}"), vec![0x33, 0x5b, 0x80, 0x80, opc, 0x60, 0x01, 0x56], false));
+        // two paths reach one common block with different seeds: CALLDATASIZE PUSH1 8 JUMPI ORIGIN PUSH1 9 JUMP JUMPDEST(8) CALLER
+        // JUMPDEST(10) DUP1 op DUP1 op STOP
+        v.push((
+            format!("two paths through one {name} block"),
+            vec![0x36, 0x60, 0x08, 0x57, 0x32, 0x60, 0x0a, 0x56, 0x5b, 0x33, 0x5b, 0x80, opc, 0x80, opc, 0x00],
+            true,
+        ));
+    }
+    v
+}
+
+fn check_freshness(code: &[u8], limit: usize, two_paths: bool) -> Result<usize, Verdict> {
+    let cfg = sle::vm::Config::default().with_value_size_limit(limit).with_max_iterations_per_opcode(6).with_permissive_errors(true);
+    let out = match run_vm(code, cfg, lazy()) {
+        VmRun::Ran(o) => o,
+        _ => return Ok(0),
+    };
+    let id_of = |v: &RuntimeBoxedVal| -> Option<String> {
+        match v.data() {
+            RSVD::Value { id } => Some(format!("{id:?}")),
+            _ => None,
+        }
+    };
+    let mut opaque = 0;
+    let mut tops: Vec<String> = Vec::new();
+    for st in out.vm.stored_states() {
+        let mut seen: HashMap<String, usize> = HashMap::new();
+        for d in 0..st.stack().depth() {
+            if let Ok(v) = st.stack().read(d as u32) {
+                if let Some(id) = id_of(v) {
+                    opaque += 1;
+                    if let Some(prev) = seen.insert(id.clone(), d) {
+                        return Err(Verdict {
+                            key: "stand-in-not-fresh:same-state".into(),
+                            what: format!("stack positions {prev} and {d} of one final state hold different quantities but the same opaque value {id} (limit {limit})"),
+                        });
+                    }
+                    if d == 0 {
+                        tops.push(id);
+                    }
+                }
+            }
+        }
+    }
+    if two_paths && tops.len() >= 2 && tops.iter().collect::<std::collections::BTreeSet<_>>().len() < tops.len() {
+        return Err(Verdict {
+            key: "stand-in-not-fresh:across-paths".into(),
+            what: format!("two paths that computed different quantities end with the same opaque value on top of the stack: {tops:?} (limit {limit})"),
+        });
+    }
+    Ok(opaque)
+}
+
 pub struct C18;
 
 fn limits(tier: Tier) -> Vec<usize> {
@@ -324,6 +384,23 @@ impl Check for C18 {
                 }
                 v
             };
+            if chunk == extra {
+                for (desc, code, two_paths) in freshness_programs() {
+                    for limit in [1usize, 2, 3, 5, 8] {
+                        ctx.case(|| json!({"bytes": hex(&code), "limit": limit, "iterations": 6, "freshness": true, "two_paths": two_paths}));
+                        ctx.count("evaluations", 1);
+                        ctx.count("freshness_runs", 1);
+                        match check_freshness(&code, limit, two_paths) {
+                            Ok(n) => {
+                                if n > 0 {
+                                    ctx.distinct("nontrivial", crate::util::h64(&(&code, limit, "fresh")));
+                                }
+                            }
+                            Err(v) => ctx.violation(v.key, format!("{} [{desc} = {}]", v.what, hex(&code)), json!({"bytes": hex(&code), "limit": limit, "iterations": 6, "freshness": true, "two_paths": two_paths})),
+                        }
+                    }
+                }
+            }
             for (desc, code) in programs {
                 for limit in [2usize, 4, 6, 250] {
                     ctx.case(|| json!({"bytes": hex(&code), "limit": limit, "iterations": 1}));
@@ -390,6 +467,7 @@ impl Check for C18 {
              limits 2, 4, 6, 250. For every stored state: every stack item, memory \
              content/offset, storage key/written value, recorded and logged value has <= limit nodes, and every node of every value \
              (also of the exported view, after lifting, and after constant folding) reports size() = its recursive node count. \
+             Freshness: in accumulating loops and two-path programs over MUL / ADD / EXP / XOR (every stack position holds a different quantity) no two opaque stand-ins of a final state, and no two path tops, are the same value. \
              non-trivial = a run in which some value was actually culled; distinct by (program, limit, iterations)",
             max_len(tier),
             limits(tier)
@@ -408,6 +486,18 @@ impl Check for C18 {
         let limit = c["limit"].as_u64().unwrap() as usize;
         let iterations = c["iterations"].as_u64().unwrap() as usize;
         println!("code: {} limit={limit} iterations={iterations}", hex(&code));
+        if c["freshness"] == true {
+            return match check_freshness(&code, limit, c["two_paths"] == true) {
+                Ok(n) => {
+                    println!("observed: {n} opaque stand-ins, all distinct");
+                    false
+                }
+                Err(v) => {
+                    println!("observed: {}: {}", v.key, v.what);
+                    true
+                }
+            };
+        }
         match check_code(&code, limit, iterations) {
             Ok(_) => {
                 println!("observed: sizes truthful and within the limit");
